@@ -186,6 +186,10 @@ func GenStreams(rng *simrt.Rand, u *gen.Universe, prop string, lifecycle, small,
 					continue
 				}
 			}
+			if prop == "C12" && rng.Chance(0.5) {
+				ops = append(ops, Op{K: "upd", N: gen.HostileNoti(rng, u, tg, 90+int64(rng.Intn(50)))})
+				continue
+			}
 			ops = append(ops, Op{K: "upd", N: GenNoti(rng, u, tg, 90, 140, small, share)})
 		}
 		streams = append(streams, ops)
@@ -216,7 +220,7 @@ func (H) Generate(rng *simrt.Rand, prop, tier string) (any, simrt.Config) {
 	if prop == "C02" {
 		sc.ClockMode = []string{"frozen", "advancing", "jumpy", "jumpy"}[rng.Intn(4)]
 	}
-	lifecycle := sc.ClockMode == "advancing" && (prop == "C14" || prop == "C15" || prop == "C03" && rng.Chance(0.6) || rng.Chance(0.15))
+	lifecycle := sc.ClockMode == "advancing" && (prop == "C14" || prop == "C15" || prop == "C12" || prop == "C03" && rng.Chance(0.6) || rng.Chance(0.15))
 	sc.Streams = GenStreams(rng, u, prop, lifecycle, small, share, 4+rng.Intn(26))
 	// clock task
 	if sc.ClockMode != "frozen" || rng.Chance(0.5) {
@@ -238,7 +242,7 @@ func (H) Generate(rng *simrt.Rand, prop, tier string) (any, simrt.Config) {
 			sc.Clock = append(sc.Clock, Op{K: "clk", V: v})
 		}
 	}
-	if prop == "C15" {
+	if prop == "C15" || prop == "C12" {
 		for i := 1 + rng.Intn(6); i > 0; i-- {
 			if rng.Chance(0.7) {
 				sc.Refresh = append(sc.Refresh, Op{K: "meta"})
@@ -618,6 +622,10 @@ func (H) Execute(x *common.Exec, s any) {
 	})
 	x.R.Schedule(true, nil)
 	x.R.AcquireEnd()
+	if x.Prop == "C12" {
+		w.judgeHostile(x)
+		return
+	}
 	w.judge(x, final, finalMeta)
 }
 
@@ -1020,4 +1028,34 @@ func (w *world) judgeCounters(x *common.Exec, tg string, k int, r opRec, prev *o
 	if upd < lo || upd > hi {
 		x.Violate("C15/count-updated", "target %s op #%d %s: updated moved by %d; %d accepted, %d suppressed, %d delete(s) submitted => expected %d..%d\n%s", tg, k, compact(r.noti), upd, acc, sup, dels, lo, hi, hist(k))
 	}
+}
+
+// judgeHostile: C12 at the cache level. Panics are reported by the framework
+// (every task is wrapped); here: a message that was rejected (an error was
+// returned) leaves what was stored before intact.
+func (w *world) judgeHostile(x *common.Exec) {
+	n := 0
+	for i, tg := range w.sc.Targets {
+		for k, r := range w.recs[i] {
+			n++
+			if r.op.K != "upd" || r.class == "ok" || k == 0 {
+				continue
+			}
+			prev := w.recs[i][k-1]
+			if prev.after == nil || r.after == nil {
+				continue
+			}
+			x.Oblige(1)
+			// a multi-update notification reports an error if any part failed while other parts were applied
+			if len(r.noti.GetUpdate())+len(r.noti.GetDelete()) > 1 && !r.noti.GetAtomic() {
+				continue
+			}
+			if got, was := contentOf(r.after, true), contentOf(prev.after, true); got != was {
+				x.Violate("C12/rejected-message-changed-state", "target %s: %s was rejected (%s: %s) but the stored data changed from\n%sto\n%s", tg, compact(r.noti), r.class, r.errText, was, got)
+				return
+			}
+		}
+	}
+	x.NonTrivial = n >= 2
+	x.StateHash = uint64(n)
 }
